@@ -307,6 +307,45 @@ def rule_optimum(F, R):
         R.check(okv, "R-C13-7", "trial value", g.loc(), "value(trial) is the mean over folds of the statistic's mean", "value(trial) is no longer the fold-average of the mean")
 
 
+def rule_distinct_batches(F, R, fns):
+    """R-C13-9: nano::evaluate drops the points already in `steps` but does not look for repeats inside the batch it is given, so "never the same
+    point twice" rests on every caller handing it distinct points: the batch is the result of local_search (an injective image of the distinct
+    offset tuples, R-C13-3) or a list of exactly one point. A list of several named points (minimum, centre, maximum, ...) is not provably
+    duplicate-free - for a grid of two values the centre is the maximum."""
+    n = 0
+    for f in fns:
+        for c in f.calls(lambda c: callee(c) == "nano::evaluate" and len(args(c)) >= 5):
+            n += 1
+            b = skip(args(c)[2])
+            for _ in range(4):
+                while b["k"] in ("cast", "construct", "materialize", "bind") and len([x for x in b.get("c", ()) if x is not None]) == 1 and b["k"] != "initlist":
+                    inner = skip([x for x in b["c"] if x is not None][0])
+                    if b["k"] == "construct" and inner["k"] not in ("ref", "call", "construct", "initlist", "cast"):
+                        break
+                    if b["k"] == "construct" and inner["k"] == "ref" and "vector" not in (inner.get("t") or "") and "igrids" not in (inner.get("t") or ""):
+                        break       # a one-element list
+                    b = inner
+                if b["k"] == "ref":
+                    v, _b = find_var(f, b.get("d"))
+                    if v is not None and v.get("c"):
+                        b = skip(v["c"][0])
+                        continue
+                break
+            ok, why = False, "the batch `%s` is neither the result of local_search nor a single point" % pp(args(c)[2])[:70]
+            if b["k"] == "call" and callee(b) == "nano::local_search":
+                ok = True
+            elif b["k"] in ("construct", "initlist"):
+                elems = [x for x in b.get("c", ()) if x is not None and "allocator" not in pp(x)[:30] and x["k"] != "defarg"]
+                if len(elems) == 1 and skip(elems[0])["k"] == "initlist":
+                    elems = [x for x in skip(elems[0]).get("c", ()) if x is not None]
+                ok = len(elems) == 1
+                if not ok:
+                    why = "the batch lists %d points (%s): nothing makes them distinct - evaluate() only drops points that are already in `steps`, so two coinciding entries " \
+                          "are both handed to the callback and both recorded (e.g. centre == maximum for a grid of two values)" % (len(elems), ", ".join(pp(x)[:20] for x in elems))
+            R.check(ok, "R-C13-9", "%s batch@%d" % (f.name, c["l"]), f.loc(c), "the batch handed to evaluate() holds distinct points (local_search, or one point)", why)
+    R.floor("R-C13-9", n, 4, "callers of nano::evaluate")
+
+
 def run(ctx):
     R = ctx.report
     tus = ctx.all_tus() if ctx.thorough else TUS
@@ -318,6 +357,7 @@ def run(ctx):
     rule_budget(F, R)
     rule_tune(F, R)
     rule_optimum(F, R)
+    rule_distinct_batches(F, R, fns)
     from . import c11
     # what a (trial, fold) task stores is what the callback returned: (train|valid, errors|losses) -> its own slot and coordinates
     c11.rule_slots(F, R, rule="R-C13-8", with_evaluate=False)
